@@ -346,14 +346,19 @@ def rule_MSK(FA):
     ext = [g for g in FA.by_base_name.get(('qvector::QVectorBuilder', 'extend'), [])]
     if ext:
         E = FA.fn(ext[0])
-        pushes = [(bi, t) for bi, t in E.calls() if t['f']['fn']['name'] == 'push']
         good = False
-        for bi, t in pushes:
-            a = norm(E.operand_term(t['args'][1]))
-            if a[0] == 'as_' and a[1] == 'u8':
-                src = a[2]
-                if any(isinstance(x, tuple) and x and x[0] == 'call' and x[1].split('::')[-1] == 'next' for x in subterms(src)):
-                    good = True
+        for g in FA.with_closures(ext[0]):
+            G = FA.fn(g)
+            for bi, t in G.calls():
+                if t['f']['fn']['name'] != 'push' or len(t['args']) != 2:
+                    continue
+                a = norm(G.operand_term(t['args'][1]))
+                if a[0] == 'as_' and a[1] == 'u8':
+                    src = a[2]
+                    # the pushed value is the element itself: yielded by next() in a loop, or the closure's argument
+                    if any(isinstance(x, tuple) and x and x[0] == 'call' and x[1].split('::')[-1] == 'next' for x in subterms(src)) or \
+                            (g['kind'] == 'Closure' and src[:1] == ('param',)):
+                        good = True
         # extend is "for each element: push": it must not touch the line vector or the position itself
         direct = [w for w in _field_writes(E)]
         touching = []
@@ -433,33 +438,34 @@ def rule_DAR(FA):
         out.append(Inst('R-DAR', 'R-DAR|reader divisors', 'violation', sel['span'], 'cannot find the reader indices `i / D` of subblock_inventory and `i / B` of block_inventory', props))
         return out
     out.append(Inst('R-DAR', 'R-DAR|reader divisors', 'ok', sel['span'], 'reader: subblock = i / %d, block = i / %d' % (D, B), props, sample={'D': D, 'B': B}))
-    # writer: every append to subblock_inventory is a function of D
+    # writer: every append to subblock_inventory is a function of D (helpers of flush_block are inlined virtually)
     F = FA.fn(fl)
     sub_param = None
     for k, v in fl['names'].items():
         if v == 'subblock_inventory':
             sub_param = ('param', v)
     if sub_param is None:
-        # positional fallback: third parameter
         sub_param = ('param', fl['names'].get('3', '_3'))
+    sites = list(inlined_sites(FA, fl))
     n_app = 0
-    for bi, t in F.calls():
+    for G, bi, atoms, to_root in sites:
+        t = G.blocks[bi]['t']
+        if t['k'] != 'call' or 'fn' not in t['f']:
+            continue
         fn = t['f']['fn']
         if fn['name'] not in ('push', 'extend', 'resize', 'extend_from_slice', 'append', 'insert', 'resize_with') or not t['args']:
             continue
-        recv = norm(F.operand_term(t['args'][0]))
+        recv = norm(to_root(G.operand_term(t['args'][0])))
         if recv != sub_param:
             continue
         n_app += 1
-        atoms = path_atoms(F, bi)
         cnt_terms = []
         if fn['name'] == 'push':
-            # one entry per iteration of the enclosing loop: look at the loop iterator
             for a in atoms:
                 if a[0] == 'is' and a[2] == 1:
                     cnt_terms.append(a[1])
         else:
-            cnt_terms = [norm(F.operand_term(x)) for x in t['args'][1:]]
+            cnt_terms = [norm(to_root(G.operand_term(x))) for x in t['args'][1:]]
         okD = False
         for ct in cnt_terms:
             for st in subterms(ct):
@@ -470,7 +476,7 @@ def rule_DAR(FA):
                         okD = True
                     if st[0] == 'bin' and st[1] == 'Shr' and st[3][0] == 'const' and (1 << st[3][1]) == D:
                         okD = True
-        branch = 'dense' if any(a[0] == '<' and a[2][0] == 'const' for a in atoms) else 'sparse'
+        branch = 'dense' if any(a[0] in ('<', '<=') and isinstance(a[2], tuple) and a[2][:1] == ('const',) and a[2][1] >= 1024 for a in atoms) else 'sparse'
         key = 'R-DAR|flush_block %s branch appends per %d' % (branch, D)
         if okD:
             out.append(Inst('R-DAR', key, 'ok', t['line'], '%s: number of subblock entries is a function of %d' % (fn['name'], D), props,
@@ -494,10 +500,13 @@ def rule_DAR(FA):
     ov_param = ov_param or ('param', fl['names'].get('4', '_4'))
     bi_param = bi_param or ('param', fl['names'].get('2', '_2'))
     enc = []
-    for bi, t in F.calls():
+    for G, bi, atoms, to_root in sites:
+        t = G.blocks[bi]['t']
+        if t['k'] != 'call' or 'fn' not in t['f']:
+            continue
         fn = t['f']['fn']
-        if fn['name'] == 'push' and t['args'] and norm(F.operand_term(t['args'][0])) == bi_param:
-            v = norm(F.operand_term(t['args'][1]))
+        if fn['name'] == 'push' and t['args'] and norm(to_root(G.operand_term(t['args'][0]))) == bi_param:
+            v = norm(to_root(G.operand_term(t['args'][1])))
             if any(isinstance(x, tuple) and x and x[0] == 'un' and x[1] == 'Neg' for x in subterms(v)):
                 enc.append((v, t['line']))
     key = 'R-DAR|sparse pointer encoding'
@@ -529,12 +538,13 @@ def rule_DAR(FA):
                                 show(v)[:100], '' if rok else ' and the reader does not decode -(p) - 1'), props, sample={'writer': show(v), 'reader': show(rterm) if rterm else None}))
     # narrowing store is dominated by span < C <= 2^16
     n_cast = 0
-    for bi, b in enumerate(F.blocks):
+    for G, bi, atoms_i, to_root in sites:
+        b = G.blocks[bi]
         for s in b['s']:
             rv = s.get('rv')
             if rv and rv['k'] == 'cast' and rv['to'] == 'u16' and rv['from'] in ('usize', 'u64', 'i64', 'u32'):
                 n_cast += 1
-                atoms = path_atoms(F, bi)
+                atoms = atoms_i
                 okc = False
                 seen = []
                 for op, a, c in [x for x in atoms if x[0] in ('<', '<=')]:
@@ -553,13 +563,16 @@ def rule_DAR(FA):
         out.append(Inst('R-DAR', 'R-DAR|u16 store bounded', 'violation', fl['span'], 'narrowing store not found (anchor lost)', props))
     # flush trigger at len == B
     trig = False
-    for spec in FA.specs(nw):
-        N = FA.fn(nw, spec)
-        for bi, t in N.calls():
-            if t['f']['fn']['name'] == 'flush_block':
-                for a in path_atoms(N, bi):
-                    if a[0] == '==' and ((a[1] == ('const', B)) or (a[2] == ('const', B))):
-                        trig = True
+    for g in FA.lib_fns():
+        if not (g.get('_base') == 'darray::Inventories' or g['path'].startswith('darray::')):
+            continue
+        for spec in FA.specs(g):
+            N = FA.fn(g, spec)
+            for bi, t in N.calls():
+                if t['f']['fn']['name'] == 'flush_block':
+                    for a in path_atoms(N, bi):
+                        if a[0] == '==' and ((a[1] == ('const', B)) or (a[2] == ('const', B))):
+                            trig = True
     out.append(Inst('R-DAR', 'R-DAR|flush trigger', 'ok' if trig else 'violation', nw['span'],
                     'a group is flushed when it holds exactly %d positions' % B if trig else 'no flush dominated by `len == %d` (reader block size)' % B, props))
     return out
@@ -933,6 +946,7 @@ def rule_SPC(FA):
 
 
 def _float_const(t):
+    t = norm(t)
     t = strip_casts(t)
     if t[0] == 'const':
         return float(t[1])
